@@ -108,6 +108,25 @@ func (H) Shrink(sc any) []any {
 	return out
 }
 
+// bigCount is the count given to Move and Unlink: the small one of the history,
+// or (one call in twelve) a count of several whole laps of the ring as it is at
+// that moment, one more or less, or a plain large number - counts are reduced
+// modulo the length by the implementation, and a shortcut taken only for large
+// counts never shows with -4..10.
+func bigCount(op Op, r *ring.Ring) int {
+	l := 1
+	if r != nil {
+		l = r.Len()
+	}
+	switch op.A % 24 {
+	case 0:
+		return l*(1+op.B%40) + op.N%2
+	case 1:
+		return 11 + op.B%300
+	}
+	return op.N
+}
+
 // Execute implements core.Harness.
 func (H) Execute(scAny any, cfg simrt.Config, st *core.Stats) (*simrt.Outcome, *core.Violation) {
 	sc := scAny.(*Scenario)
@@ -425,13 +444,15 @@ func runRings(sc *Scenario) (*core.Violation, uint64) {
 		case "prev":
 			fo, fs = func() { ro = a.o.Prev() }, func() { rs = a.s.Prev() }
 		case "move":
-			fo, fs = func() { ro = a.o.Move(op.N) }, func() { rs = a.s.Move(op.N) }
+			n := bigCount(op, a.s)
+			fo, fs = func() { ro = a.o.Move(n) }, func() { rs = a.s.Move(n) }
 		case "link":
 			fo, fs = func() { ro = a.o.Link(b.o) }, func() { rs = a.s.Link(b.s) }
 		case "linknil":
 			fo, fs = func() { ro = a.o.Link(nil) }, func() { rs = a.s.Link(nil) }
 		case "unlink":
-			fo, fs = func() { ro = a.o.Unlink(op.N) }, func() { rs = a.s.Unlink(op.N) }
+			n := bigCount(op, a.s)
+			fo, fs = func() { ro = a.o.Unlink(n) }, func() { rs = a.s.Unlink(n) }
 		case "len":
 			hasResult = false
 			fo, fs = func() { lo = a.o.Len() }, func() { ls = a.s.Len() }
